@@ -61,6 +61,30 @@ fn answers(p: &Path, blob: bool, s: SeqNo, bs: u32, universe: &[K]) -> Result<An
     }
 }
 
+/// run a probe with a watchdog: a read path that spins forever on corrupted bytes is reported, not waited for
+fn with_timeout<T: Send + 'static>(f: impl FnOnce() -> T + Send + 'static, secs: u64) -> Option<T> {
+    let (tx, rx) = std::sync::mpsc::channel();
+    std::thread::spawn(move || {
+        let _ = tx.send(f());
+    });
+    rx.recv_timeout(std::time::Duration::from_secs(secs)).ok()
+}
+
+/// after the corruption: compact everything, then read — a compaction that silently skips unreadable data and
+/// publishes a clean-looking table is a silent corruption too
+fn answers_after_compaction(p: &Path, blob: bool, s: SeqNo, bs: u32, universe: &[K]) -> Result<Answers, String> {
+    let r = std::panic::catch_unwind(|| -> Result<(), String> {
+        let t = cfg(p, blob, s, bs).open().map_err(|e| format!("open:{e:?}"))?;
+        t.major_compact(u64::MAX, 0).map_err(|e| format!("compact:{e:?}"))?;
+        Ok(())
+    });
+    match r {
+        Ok(Ok(())) => answers(p, blob, s, bs, universe),
+        Ok(Err(e)) => Err(e),
+        Err(_) => Err("panic".into()),
+    }
+}
+
 fn copy_dir(src: &Path, dst: &Path) {
     std::fs::create_dir_all(dst).unwrap();
     for e in std::fs::read_dir(src).unwrap() {
@@ -160,7 +184,16 @@ pub fn run(seed: u64, trees: u64, thorough: bool, st: &mut Stats, replay_dir: &P
                 std::fs::write(&target, &b).unwrap();
                 st.evaluations += 1;
                 let what = if trunc { "truncate" } else { "flip" };
-                match answers(img.path(), blob, s, bs, &universe) {
+                let res = {
+                    let (p, u) = (img.path().to_path_buf(), universe.clone());
+                    with_timeout(move || answers(&p, blob, s, bs, &u), 20)
+                };
+                let Some(res) = res else {
+                    st.oracle_failures.push(format!("C10 {what} at offset {i} (pattern {pat:#04x}) of {kind} file `{}` of tree #{tno} (seed {seed}): the read path does not terminate (watchdog 20 s)", rel.display()));
+                    // the stuck thread cannot be reclaimed: stop this instrument here
+                    return;
+                };
+                match res {
                     Ok(d) if d == orig => st.count(&format!("flip.{kind}.{what}.same")),
                     Ok(d) => {
                         st.count(&format!("flip.{kind}.{what}.SILENT"));
@@ -176,6 +209,38 @@ pub fn run(seed: u64, trees: u64, thorough: bool, st: &mut Stats, replay_dir: &P
                 st.nontrivial_case(&format!("{tno}/{}/{i}/{pat}/{trunc}", rel.display()));
             }
             std::fs::write(&target, &bytes).unwrap();
+            // ---- second phase (table and blob files): corrupt, COMPACT, then read
+            if kind == "table" || kind == "blob" {
+                let cstride = if thorough { 3 } else { 11 };
+                let off0 = (rng.below(cstride as u64)) as usize;
+                for i in (off0..bytes.len()).step_by(cstride) {
+                    let img2 = tempfile::tempdir_in(crate::scratch_root()).unwrap();
+                    copy_dir(dir.path(), img2.path());
+                    let mut b = bytes.clone();
+                    b[i] ^= 0x01;
+                    std::fs::write(img2.path().join(&rel), &b).unwrap();
+                    st.evaluations += 1;
+                    let res = {
+                        let (p, u) = (img2.path().to_path_buf(), universe.clone());
+                        with_timeout(move || answers_after_compaction(&p, blob, s, bs, &u), 30)
+                    };
+                    match res {
+                        None => {
+                            st.oracle_failures.push(format!("C10 flip at offset {i} of {kind} file `{}` of tree #{tno} (seed {seed}): compaction / reads do not terminate", rel.display()));
+                            return;
+                        }
+                        Some(Ok(d)) if d == orig => st.count(&format!("flip.{kind}.compact.same")),
+                        Some(Ok(_)) => {
+                            st.count(&format!("flip.{kind}.compact.SILENT"));
+                            if st.oracle_failures.len() < 12 {
+                                st.oracle_failures.push(format!("C10 flip at offset {i} of {kind} file `{}` (len {}) of tree #{tno} (seed {seed}, blob={blob}, block size {bs}): a major compaction SUCCEEDS on the corrupted file and the reads afterwards differ from the original answers", rel.display(), bytes.len()));
+                            }
+                        }
+                        Some(Err(e)) if e == "panic" => st.count(&format!("flip.{kind}.compact.panic")),
+                        Some(Err(_)) => st.count(&format!("flip.{kind}.compact.error")),
+                    }
+                }
+            }
         }
         if tno < 2 {
             st.sample(format!("tree #{tno} blob={blob} block_size={bs} snapshot={s}: {} live keys; every byte of every file flipped / truncated", orig.len().saturating_sub(1)));
